@@ -73,7 +73,9 @@ var bindFns = []bindFn{
 	{`strmatchx($s,"(a)(B)?")["matched"]`, "strmatchx", func(s *mlrval.Mlrval) *mlrval.Mlrval {
 		return bifs.BIF_strmatchx(s, sval("(a)(B)?")).AcquireMapValue().Get("matched")
 	}},
-	{`joinv(splitax($s," "),"|")`, "splitax/joinv", func(s *mlrval.Mlrval) *mlrval.Mlrval { return bifs.BIF_joinv(bifs.BIF_splitax(s, sval(" ")), sval("|")) }},
+	{`joinv(splitax($s," "),"|")`, "splitax/joinv", func(s *mlrval.Mlrval) *mlrval.Mlrval {
+		return bifs.BIF_joinv(bifs.BIF_splitax(s, sval(" ")), sval("|"))
+	}},
 	{`format("{}:{}",$s,$s)`, "format", func(s *mlrval.Mlrval) *mlrval.Mlrval { return bifs.BIF_format([]*mlrval.Mlrval{sval("{}:{}"), s, s}) }},
 	{`$s . "x"`, ".", func(s *mlrval.Mlrval) *mlrval.Mlrval { return bifs.BIF_dot(s, sval("x")) }},
 	{`json_parse(json_stringify($s))`, "json_stringify/json_parse", func(s *mlrval.Mlrval) *mlrval.Mlrval {
@@ -205,6 +207,8 @@ var docExamples = []docEx{
 	{`strlen("\u2766\U00010877")`, "2"},
 	{`sub("a.b", "\.", "\t") . "|" . strlen(sub("a.b", "\.", "\t"))`, "a\tb|3"},
 	{`gsub("a\tb", "\t", "TAB")`, "aTABb"},
+	{`joinv(fmtifnum({"a":3.1,"b":"x"}, "%.2f"), ",")`, "3.10,x"},
+	{`joinv(fmtnum([1,2], "%03d"), ",")`, "001,002"},
 	{`any([1,2,3], func(e) {return e =~ "2"})`, "true"},
 	{`any(["a","b"], func(e) {return e =~ "c"})`, "false"},
 }
